@@ -11,6 +11,7 @@ import PortusModel.Props.C14
 import PortusModel.Props.C03
 import PortusModel.Rt.Obs
 import PortusModel.Props.C01
+import PortusModel.Props.C01Sim
 import PortusModel.Driver.Vm
 import PortusModel.Driver.Lang
 /-! `ORC <id> Cnn <input> <observed…>`: evaluate the property oracle `Cnn.check` on behaviour observed
@@ -306,8 +307,11 @@ def orcC01 (args : List String) : String :=
       | some cps =>
         let parts := (splitAt "|" obs).filter fun p => p.head? = some "I"
         match parts.mapM parseIObs with
-        | some os => passFail (C01.check (cps.map Char.ofNat) upd inputs os) ++ " " ++
-            C01.fragment (cps.map Char.ofNat) upd inputs
+        | some os =>
+          let frag := C01.fragment (cps.map Char.ofNat) upd inputs
+          -- "in-theorem": the program also meets every hypothesis of `C01.check_accepts_compiled` (uid 7 as installed by the scripts)
+          let frag := if frag = "in-fragment" && C01.inTheorem 7 (cps.map Char.ofNat) upd then "in-theorem" else frag
+          passFail (C01.check (cps.map Char.ofNat) upd inputs os) ++ " " ++ frag
         | none => "FAIL unparsable-observation"
     | _, _, _ => "BADARG"
   | _ => "BADARG"
